@@ -342,9 +342,10 @@ func (c *checker) tie(stream string, in caseInput, p realPlan) (per map[string][
 	}
 	res.TracesVsImpl++
 	script, flags := parseFlags(f[2])
+	agree := true
 	if script != "ok" {
 		res.Disagree(stream+" (myers script of the rule lists: "+script+")", in, encScripts(p.Scripts), f[2])
-		return nil, nil, false
+		agree = false
 	}
 	if p.Err != "" || f[0] == "err" {
 		res.Count("real:error")
@@ -355,7 +356,10 @@ func (c *checker) tie(stream string, in caseInput, p realPlan) (per map[string][
 		if f[0] != "err" || implE != f[1] {
 			res.Disagree(stream+" (error)", in, p.Err, ans)
 		}
-		return nil, flags, false
+		if p.Err != "" {
+			return nil, flags, false
+		}
+		agree = false
 	}
 	names := targetedNames(p)
 	per, order, outside := canonGroups(p.Groups, devA, names)
@@ -372,11 +376,11 @@ func (c *checker) tie(stream string, in caseInput, p realPlan) (per map[string][
 	for _, n := range morder {
 		model = append(model, enc(n)+"|"+strings.Join(mper[n], ";"))
 	}
-	if strings.Join(impl, "!") != strings.Join(model, "!") {
+	if agree && strings.Join(impl, "!") != strings.Join(model, "!") {
 		res.Disagree(stream, in, strings.Join(impl, "!"), strings.Join(model, "!"))
-		return per, flags, false
+		agree = false
 	}
-	return per, flags, true
+	return per, flags, agree
 }
 
 func renderPair(a panos.VerifVsys, b panos.VerifVsys) (string, string) {
@@ -416,7 +420,8 @@ func (c *checker) runCase(in caseInput, deep bool) {
 	res.Eval(canon, total > 0)
 	res.Count(fmt.Sprintf("cmds:%02d", min(total, 40)/5*5))
 	res.Count(fmt.Sprintf("vsys:%d", len(p.A.Vsys)))
-	if !ok {
+	_ = ok // the oracle below judges the real requests whether or not the model agrees
+	if flags == nil {
 		return
 	}
 	if len(res.Samples) < 3 && total > 3 {
@@ -595,11 +600,20 @@ func (c *checker) myersCases(n int) {
 		bits := make([]byte, a*b)
 		dens := 10 + rng.Intn(60)
 		diag := rng.Chance(60)
+		full := rng.Chance(20)
+		if full {
+			b = a
+		}
+		eq = make([]bool, a*b)
+		bits = make([]byte, a*b)
 		for x := 0; x < a; x++ {
 			for y := 0; y < b; y++ {
 				e := rng.Chance(dens)
 				if diag {
 					e = rng.Chance(5) || (x-y == 0 || x-y == 1 || y-x == 2) && rng.Chance(85)
+				}
+				if full && x == y {
+					e = true
 				}
 				eq[x*b+y] = e
 				bits[x*b+y] = '0'
@@ -617,7 +631,7 @@ func (c *checker) myersCases(n int) {
 		c.res.Count("myers:cases")
 		if model != strings.Join(impl, ",") {
 			c.res.Disagree("myers port", map[string]any{"n": a, "m": b, "eq": string(bits)}, strings.Join(impl, ","), model)
-		} else if fl != "valid=1 norm=1" {
+		} else if fl != "valid=1 norm=1 ident=-" && fl != "valid=1 norm=1 ident=1" {
 			c.res.Disagree("myers script not valid/normalised", map[string]any{"n": a, "m": b, "eq": string(bits)}, strings.Join(impl, ","), ans)
 		}
 	}
